@@ -29,6 +29,7 @@ References:
 # Imports
 from typing import Any, Union
 
+from bip_utils.addr.addr_dec_utils import AddrDecUtils
 from bip_utils.addr.addr_key_validator import AddrKeyValidator
 from bip_utils.addr.iaddr_decoder import IAddrDecoder
 from bip_utils.addr.iaddr_encoder import IAddrEncoder
@@ -80,6 +81,9 @@ class P2WPKHAddrDecoder(IAddrDecoder):
         if wit_ver_got != P2WPKHAddrConst.WITNESS_VER:
             raise ValueError(f"Invalid witness version (expected {P2WPKHAddrConst.WITNESS_VER}, "
                              f"got {wit_ver_got})")
+        # Validate length (a 32-byte version 0 program is a script hash, not a public key hash)
+        AddrDecUtils.ValidateLength(addr_dec_bytes, Hash160.DigestSize())
+
         return addr_dec_bytes
 
 
